@@ -36,7 +36,7 @@ type ImportInfo struct {
 type Unit struct {
 	Name     string // family/name
 	Family   string
-	Module   *watgen.Module // nil for compiler output
+	Module   *watgen.Module `json:"-"` // nil for compiler output
 	Text     string         // WAT handed to the real assembler
 	Funcs    map[string]FuncInfo
 	FuncList []string // export names in module order
@@ -684,6 +684,9 @@ func callUnits(o Options) []*Unit {
 				lget(6), ins("i32.reinterpret_f32"), ins("i64.extend_i32_u"), watgen.I64Const(3), ins("i64.rotl"), ins("i64.xor"),
 				lget(5), watgen.I64Const(7), ins("i64.rotl"), ins("i64.xor"),
 				lget(4), ins("i64.extend_i32_s"), watgen.I64Const(11), ins("i64.rotl"), ins("i64.xor")}, false)
+		u.addFunc("unr", ft(pv(i32), i32), nil, []watgen.Instr{watgen.Ins(watgen.OpNop), lget(0), watgen.If(""), watgen.Ins(watgen.OpUnreachable), watgen.Ins(watgen.OpEnd), watgen.Ins(watgen.OpNop), watgen.I32Const(1)}, false)
+		u.Calls = append(u.Calls, Call{Fn: "unr", Args: []uint64{0}, Instr: "unreachable", Class: "not-reached"}, Call{Fn: "unr", Args: []uint64{1}, Instr: "unreachable", Class: "reached"},
+			Call{Fn: "unr", Args: []uint64{0}, Instr: "unreachable", Class: "not-reached-after-trap"})
 		quad := [][4]Val{}
 		a32, a64, af32, af64 := IntAlpha(32), IntAlpha(64), FloatAlpha(32), FloatAlpha(64)
 		for k := 0; k < 16; k++ {
